@@ -66,9 +66,10 @@ func valZones() []*time.Location {
 	return valZoneList
 }
 
+// valDecNull: the library's NULL decimal object (a Decimal without a magnitude) — built here, not obtained
+// from the code under test
 func valDecNull() *asetypes.Decimal {
-	v, _ := asetypes.MONEYN.GoValue(vle, nil)
-	return v.(*asetypes.Decimal)
+	return &asetypes.Decimal{}
 }
 
 func valShowTime(x time.Time) string {
